@@ -218,20 +218,32 @@ pub fn render_field(l: &Layout, f: &Field, o: &RenderOpts) -> String {
     let mut t = ty_text(l, &f.ty);
     if let FieldTy::Enum { option: true, .. } = &f.ty {
         match f.opt_path {
+            // (with a user module called `core` in scope the unanchored spelling would be the user's mistake)
+            1 if l.decoys & 4 != 0 => t = format!("::core::option::{}", t),
             1 => t = format!("core::option::{}", t),
             2 => t = format!("::core::option::{}", t),
             _ => {}
         }
     }
+    let k = l.fields.iter().position(|x| std::ptr::eq(x, f)).unwrap_or(0);
+    let wrapped = l.macro_wrap != 0;
     let t = match &f.array {
-        Some(a) => match f.huge.as_ref().filter(|h| h.part == "count") {
-            Some(h) => format!("[{}; {}]", t, h.value),
-            None => format!("[{}; {}]", t, num(a.count as u64, f.zero_pad)),
-        },
+        Some(a) => format!("[{}; {}]", t, array_len_text(f, a)),
         None => t,
     };
-    s.push_str(&format!("    {}: {},\n", f.name, t));
+    if wrapped {
+        s.push_str(&format!("    $f{}: {},\n", k, t));
+    } else {
+        s.push_str(&format!("    {}: {},\n", f.name, t));
+    }
     s
+}
+
+fn array_len_text(f: &Field, a: &ArrayDecl) -> String {
+    match f.huge.as_ref().filter(|h| h.part == "count") {
+        Some(h) => format!("{}", h.value),
+        None => num(a.count as u64, f.zero_pad),
+    }
 }
 
 pub fn default_const_name(l: &Layout) -> String {
@@ -244,7 +256,9 @@ pub fn default_const_name(l: &Layout) -> String {
 /// Only the `#[bitfield(..)] struct ..` item (and its named default const), without aux types.
 pub fn render_struct(l: &Layout, o: &RenderOpts) -> String {
     let mut s = String::new();
-    let mut args = vec![base_ty_name(l.base_bits)];
+    let wrapped = l.macro_wrap != 0;
+    let mut literal_default: Option<String> = None;
+    let mut args = vec![if wrapped { "$base".to_string() } else { base_ty_name(l.base_bits) }];
     if let Some(d) = &l.default {
         let sep = if l.default_colon { ":" } else { " =" };
         if d.named_const {
@@ -265,7 +279,12 @@ pub fn render_struct(l: &Layout, o: &RenderOpts) -> String {
                 102 => format!("{}_u{}", lit(d.value, 2, true), l.storage_bits()),
                 r => lit(d.value, r, false),
             };
-            args.push(format!("default{} {}", sep, text));
+            if wrapped {
+                literal_default = Some(text);
+                args.push(format!("default{} $d", sep));
+            } else {
+                args.push(format!("default{} {}", sep, text));
+            }
         }
     }
     if l.debug {
@@ -275,6 +294,8 @@ pub fn render_struct(l: &Layout, o: &RenderOpts) -> String {
             args.push("debug".to_string());
         }
     }
+    // what follows is the struct item; with `macro_wrap` it becomes the body of a macro_rules! arm
+    let head = std::mem::take(&mut s);
     if o.docs {
         s.push_str(&doc_text("", "bitfield", &format!("{}{}", l.name, l.fields.len())));
     }
@@ -306,12 +327,39 @@ pub fn render_struct(l: &Layout, o: &RenderOpts) -> String {
         (true, 2) => "pub(super) ",
         _ => "pub ",
     };
-    s.push_str(&format!("{}struct {} {{\n", vis, l.name));
-    for f in &l.fields {
-        s.push_str(&render_field(l, f, o));
+    if l.fields.is_empty() && l.base_bits % 2 == 1 {
+        // a bitfield without fields may also be written as a unit struct
+        s.push_str(&format!("{}struct {};\n", vis, l.name));
+    } else {
+        s.push_str(&format!("{}struct {} {{\n", vis, l.name));
+        for f in &l.fields {
+            s.push_str(&render_field(l, f, o));
+        }
+        s.push_str("}\n");
     }
-    s.push_str("}\n");
-    s
+    if !wrapped {
+        return format!("{}{}", head, s);
+    }
+    // macro_rules! wrapper: base type, literal default, field names and array lengths come from the invocation
+    let mname = format!("mk_{}", l.name.to_lowercase());
+    // (array lengths stay in the body: whether a length that arrives as a `$n:literal` / `$n:expr` fragment — an
+    // invisible group — has to be understood is not something the statements decide; see DESIGN.md 13.5, M1-2)
+    let mut pat = vec!["$base:ty".to_string(), "$d:literal".to_string()];
+    let mut inv = vec![base_ty_name(l.base_bits), literal_default.unwrap_or_else(|| "0".to_string())];
+    for (k, f) in l.fields.iter().enumerate() {
+        pat.push(format!("$f{}:ident", k));
+        inv.push(f.name.clone());
+    }
+    let mut out = head;
+    out.push_str(&format!("macro_rules! {} {{\n    ({}) => {{\n", mname, pat.join(", ")));
+    for line in s.lines() {
+        out.push_str("        ");
+        out.push_str(line);
+        out.push('\n');
+    }
+    out.push_str("    };\n}\n");
+    out.push_str(&format!("{}!({});\n", mname, inv.join(", ")));
+    out
 }
 
 /// A custom field type written by hand: a newtype around the base integer with const `new_with_raw_value` and
@@ -349,7 +397,16 @@ pub fn render_layout(l: &Layout, o: &RenderOpts) -> String {
             s.push_str(&render_layout(i, o));
         }
     }
-    if l.decoys != 0 && (!l.enums.is_empty() || !l.inners.is_empty()) {
+    if l.decoys & 2 != 0 {
+        // companions of the struct's name that the user declared for purposes of their own
+        for suffix in ["Builder", "Fields", "Raw", "Bits", "Mask", "Value", "Default", "Debug", "Ext", "Impl", "Layout", "Register"] {
+            s.push_str(&format!("/// a type of the user's own\n#[derive(Clone, Copy)]\npub struct {}{};\n", l.name, suffix));
+        }
+    }
+    if l.decoys & 4 != 0 {
+        s.push_str("/// a module of the user's own that happens to be called `core`\npub mod core {\n    /// nothing the macro should ever look at\n    pub mod fmt {}\n    /// nothing the macro should ever look at\n    pub mod mem {}\n}\n");
+    }
+    if l.decoys & 1 != 0 && (!l.enums.is_empty() || !l.inners.is_empty()) {
         s.push_str("/// same-named types of other widths; never used\npub mod decoy {\n    #![allow(dead_code, unused_imports)]\n    use arbitrary_int::*;\n");
         for e in &l.enums {
             let bits = if e.bits < 64 { e.bits + 1 } else { e.bits - 1 };
@@ -384,6 +441,7 @@ pub fn render_layout(l: &Layout, o: &RenderOpts) -> String {
                 decoys: 0,
                 derives: 0,
                 handwritten: 0,
+                macro_wrap: 0,
             };
             for line in render_struct(&d, o).lines() {
                 s.push_str("    ");
